@@ -8,10 +8,12 @@ n="$1"; bin="$2"; edit="$3"; shift 3
 w="/tmp/w-$n"; h="/tmp/h-$n"
 rsync -a --exclude target --exclude Cargo.toml --exclude .cargo /verif/harness/ "$h/"
 git -C "$w" checkout -q -- . 
+git -C "$w" checkout -q --detach "$(git -C /repo rev-parse HEAD)"
 python3 "$edit" "$w" || { echo "EDIT FAILED"; exit 3; }
 git -C "$w" diff --stat | tail -1
 ( cd "$h" && cargo build --bin "$bin" 2>&1 | grep -E "^error" -A8 | head -20 )
 mkdir -p "$h/out"
+cp /verif/known_findings.json "$h/out/known_findings.json"
 VERIF_DIR="$h/out" "$h/target/debug/$bin" --no-evidence "$@" 2>&1 | grep -E "VIOLATION|signature|detail|total:|KNOWN|INCONCL" | cut -c1-400 | head -12
 echo "exit=${PIPESTATUS[0]}"
 git -C "$w" checkout -q -- .
